@@ -37,29 +37,34 @@ Qed.
 Theorem time_microsecond_range : forall nt, 0 <= time_nanosecond nt / TIME_MICRO < 1000000.
 Proof. intros nt. unfold time_nanosecond, TIME_MICRO. lia. Qed.
 
-(* Time(int): what the code accepts.  It rejects exactly t >= DAY; negative values are stored unchanged
-   (the upper bound is checked, the lower one is not). *)
+(* Time(int): what the code accepts.  Since the repair of finding C34-1 (Time(-1) used to be stored unchanged: only the
+   upper bound was checked; the statement below was then REFUTED with witness t = -1) the generated function rejects
+   exactly the integers outside [0, DAY), so the full statement is now a theorem of the regenerated source. *)
 Theorem time_from_timestamp_spec : forall t old,
-  time_from_timestamp t old = if t >=? TIME_DAY then Raise else Ok (tt, t).
-Proof. intros t old. unfold time_from_timestamp, TIME_DAY. destruct (t >=? 86400000000000); reflexivity. Qed.
+  time_from_timestamp t old = if (t <? 0) || (t >=? TIME_DAY) then Raise else Ok (tt, t).
+Proof.
+  intros t old. unfold time_from_timestamp, TIME_DAY. destruct (t <? 0); [reflexivity|].
+  destruct (t >=? 86400000000000); reflexivity.
+Qed.
 
 Definition time_accepts_full_statement : Prop :=
   forall t old, (exists nt, time_from_timestamp t old = Ok (tt, nt)) <-> 0 <= t < TIME_DAY.
 
-Theorem time_accepts_refuted : ~ time_accepts_full_statement.
+Theorem time_accepts_full : time_accepts_full_statement.
 Proof.
-  intros H. destruct (H (-1) 0) as [H1 _]. assert (Hex : exists nt, time_from_timestamp (-1) 0 = Ok (tt, nt)) by (eexists; reflexivity).
-  specialize (H1 Hex). lia.
+  intros t old. rewrite time_from_timestamp_spec. unfold TIME_DAY.
+  destruct (t <? 0) eqn:E0; destruct (t >=? 86400000000000) eqn:E1; cbn [orb]; split.
+  all: try (intros [nt Hn]; discriminate).
+  all: try lia.
+  intros _. eexists. reflexivity.
 Qed.
 
-Theorem time_accepts_partial : forall t old, 0 <= t ->
-  ((exists nt, time_from_timestamp t old = Ok (tt, nt)) <-> 0 <= t < TIME_DAY).
+(* the accepted value is stored unchanged *)
+Theorem time_accepts_stores : forall t old nt, time_from_timestamp t old = Ok (tt, nt) -> nt = t /\ 0 <= t < TIME_DAY.
 Proof.
-  intros t old Ht. rewrite time_from_timestamp_spec. unfold TIME_DAY. destruct (t >=? 86400000000000) eqn:E; split.
-  - intros [nt Hn]. discriminate.
-  - lia.
-  - intros _. lia.
-  - intros _. eexists. reflexivity.
+  intros t old nt H. rewrite time_from_timestamp_spec in H. unfold TIME_DAY in *.
+  destruct (t <? 0) eqn:E0; destruct (t >=? 86400000000000) eqn:E1; cbn [orb] in H; try discriminate.
+  injection H as H. split; lia.
 Qed.
 
 (* ------------------------------------------------------------------ uuid_from_time: integer tail *)
@@ -144,8 +149,8 @@ Print Assumptions time_fields_recompose.
 Print Assumptions time_fields_range.
 Print Assumptions time_fields_roundtrip.
 Print Assumptions time_from_timestamp_spec.
-Print Assumptions time_accepts_refuted.
-Print Assumptions time_accepts_partial.
+Print Assumptions time_accepts_full.
+Print Assumptions time_accepts_stores.
 Print Assumptions uuid_tail_spec.
 Print Assumptions uuid_tail_time_fields.
 Print Assumptions uuid_tail_time.
